@@ -235,7 +235,11 @@ def explore(ctx, model, spec):
                 ctx.spec_violation("response-never-dequeued-although-sent-in-time", case, f"caller {k}: {outs[k]}")
 
 
-async def _stdio_burst(n_callers, burst, order):
+BAD_MEMBERS = [{"jsonrpc": "2.0", "id": "zz", "error": {"message": "no code"}}, 17, {"jsonrpc": "2.0", "id": "zz"},
+               {"jsonrpc": "2.0", "id": "zz", "error": {"code": "x", "message": "m"}}, None, "text"]
+
+
+async def _stdio_burst(n_callers, burst, order, batch=None):
     """n callers on the real StdioClient's (read, write) pair over a scripted child; the child answers each request
     after writing `burst` unrelated notifications, all in ONE chunk, in the given order of callers."""
     import json as _json
@@ -261,7 +265,13 @@ async def _stdio_burst(n_callers, burst, order):
                 while proc.stdin.data().count(b"\n") < n_callers:
                     await anyio.sleep(0.01)
                 chunk = b""
-                for k in order:
+                if batch is not None:
+                    # ONE batch array line carries every answer (in caller order), with malformed members among them
+                    members = [{"jsonrpc": "2.0", "id": f"c{k}", "result": {"tok": 100 + k}} for k in order]
+                    for pos, bad in sorted(batch, key=lambda x: -x[0]):
+                        members.insert(pos, BAD_MEMBERS[bad])
+                    chunk = (_json.dumps(members) + "\n").encode()
+                for k in (order if batch is None else []):
                     for i in range(burst):
                         chunk += (_json.dumps({"jsonrpc": "2.0", "method": "notifications/message",
                                                "params": {"level": "info", "data": i}}) + "\n").encode()
@@ -299,6 +309,39 @@ def check_transport_bursts(ctx):
                 ctx.spec_violation(klass, case, f"callers {lost} got {[outs[k] for k in lost]}")
 
 
+def check_transport_batches(ctx):
+    """The answers of all outstanding requests arrive in ONE batch array line (legal while no version >= 2025-06-18 was
+    negotiated) that also carries members the parser rejects: every caller still gets its own answer."""
+    from chuk_mcp.protocol.messages.json_rpc_message import parse_message
+
+    def rejected(b):
+        try:
+            parse_message(b)
+            return False
+        except Exception:                                   # noqa: BLE001
+            return True
+    # a member the parser ACCEPTS is a foreign response on the shared stream: that rotates the waiters and is the recorded
+    # discard finding (classified by explore() with the delivery log), not what is tried here
+    usable = [i for i, b in enumerate(BAD_MEMBERS) if rejected(b)]
+    ctx.extra["batch_members_rejected_by_parser"] = [BAD_MEMBERS[i] for i in usable]
+    for n_callers in (2, 3):
+        order = list(range(n_callers))
+        shapes = [[]] + [[(pos, bad)] for pos in range(n_callers + 1) for bad in usable] + \
+                 [sh for sh in ([(0, 0), (1, 2)], [(0, 1), (n_callers, 4)]) if all(b in usable for _p, b in sh)]
+        for batch in shapes:
+            outs = vrun(_stdio_burst, n_callers, 0, order, batch)
+            case = {"via": "StdioClient", "callers": n_callers, "order": order, "one_batch_line": True,
+                    "malformed_members_at": [[p, BAD_MEMBERS[b]] for p, b in batch]}
+            ctx.case(case, nontrivial=True)
+            ctx.count("stdio-batch:" + ("clean" if not batch else "with-malformed-member"))
+            ctx.spec_total += 1
+            want = [("ret", 100 + k) for k in range(n_callers)]
+            if outs != want:
+                lost = [k for k, o in enumerate(outs) if o != want[k]]
+                klass = "response-lost-in-batch-line" if all(outs[k][0] == "timeout" for k in lost) else "wrong-result-from-batch-line"
+                ctx.spec_violation(klass, case, f"callers {lost} got {[outs[k] for k in lost]}")
+
+
 def run(ctx):
     lib.standard_obligations(ctx, GEN, TARGETS)
     spec = lib.Driver("C18Spec")
@@ -312,6 +355,7 @@ def run(ctx):
         ctx.escalated = True
     explore(ctx, model, spec)
     check_transport_bursts(ctx)
+    check_transport_batches(ctx)
     if ctx.thorough:
         lib.coqchk(ctx, "C18")
     ctx.rule = ("(a) 2-4 real send_message tasks on one stream pair under a virtual clock: every permutation of the answer order x 5 timing "
@@ -319,7 +363,8 @@ def run(ctx):
                 "with errors, foreign responses, same-id server requests and per-caller deadlines; the recorded delivery log is replayed "
                 "through the model; caller ids incl. twins that differ only in JSON type (\"7\" vs 7) with late answers; "
                 "(b) 1-3 callers through the real StdioClient over a scripted child with bursts of 0..150 (thorough: 1000) unrelated "
-                "notifications written ahead of each response in one chunk; distinct = distinct scenario dicts")
+                "notifications written ahead of each response in one chunk; (c) 2-3 callers through the real StdioClient whose answers "
+                "arrive in ONE batch array line with a malformed member (6 kinds) at every position; distinct = distinct scenario dicts")
     return lib.finish(ctx, TRUSTED, ASSUME)
 
 
@@ -327,7 +372,10 @@ def replay(ctx, data):
     spec = lib.Driver("C18Spec")
     c = data["case"]
     if c.get("via") == "StdioClient":
-        outs = vrun(_stdio_burst, c["callers"], c["burst_before_each_response"], c["order"])
+        batch = None
+        if c.get("one_batch_line"):
+            batch = [(p_, BAD_MEMBERS.index(b)) for p_, b in c["malformed_members_at"]]
+        outs = vrun(_stdio_burst, c["callers"], c.get("burst_before_each_response", 0), c["order"], batch)
         want = [("ret", 100 + k) for k in range(c["callers"])]
         if outs != want:
             ctx.spec_violation("response-lost-behind-burst-in-transport", c, f"{outs}")
